@@ -105,6 +105,9 @@ type DecArshalPlan struct {
 	Read       core.ReadPlan `json:"read"`
 	PreWarm    int           `json:"prewarm"` // earlier pooled calls (history for C03/C18 flavours)
 	FromFunc   bool          `json:"unmarshal_from_func_for_any"`
+	TypedType  string        `json:"typed_target,omitempty"` // a reflect-built random type; the input is Marshal of a random value of it
+
+	typ reflect.Type
 	Legacy     bool          `json:"v1_default_options"` // DefaultOptionsV1 (legacy error semantics: semantic errors are not fatal)
 	Noop       int           `json:"noop_opts"` // path-switching options that keep semantics: 1 AllowDuplicateNames on dup-free input, 2 declining Unmarshalers for any, 3 both
 }
@@ -129,6 +132,35 @@ func (sc *DecArshal) plan(t *core.Tape, env *Env) *DecArshalPlan {
 		mutP = 0
 	}
 	p.Input = genInputCfg(is, env, mutP, p.Route == "read", sc.Mode == "c03")
+	if sc.Mode != "c03" && ps.Chance(1, 3) {
+		// every default unmarshaler under chunking and faults: a random type,
+		// the marshalled form of random values of it as input
+		g := &gen.GoGen{S: t.S("typed"), Cfg: gen.GoCfg{MaxDepth: 1 + ps.Draw(4), BigStructs: ps.Chance(1, 8)}}
+		typ := g.Type(0)
+		var in []byte
+		n := 1
+		if p.Route == "decode" {
+			n = 1 + is.Draw(4)
+		}
+		ok := true
+		for k := 0; k < n && ok; k++ {
+			b, err := json.Marshal(g.Value(typ, 0).Interface(), json.Deterministic(true))
+			if err != nil {
+				ok = false
+				break
+			}
+			in = append(in, b...)
+			in = append(in, '\n')
+		}
+		if ok {
+			if is.Chance(1, 4) {
+				in = gen.Mutate(is, in)
+			}
+			p.Input, p.typ, p.TypedType = in, typ, clipStr(typ.String(), 300)
+			p.TargetName = "typed"
+			p.AllowUTF8, p.AllowDup, p.FromFunc = false, false, false
+		}
+	}
 	if sc.Mode == "c03" {
 		// untyped targets, valid duplicate-free texts, strings from colliding
 		// families repeated across values, and semantics-preserving options
@@ -261,6 +293,11 @@ func (sc *DecArshal) Run(t *core.Tape, env *Env) (any, []core.Violation) {
 		})))
 	}
 	tgt := decTargets[p.Target]
+	if p.typ != nil {
+		typ := p.typ
+		tgt.Name = "typed"
+		tgt.New = func() any { return reflect.New(typ).Interface() }
+	}
 
 	// history: a few earlier pooled calls so that the pooled decoder arrives used
 	for i := 0; i < p.PreWarm; i++ {
